@@ -66,6 +66,7 @@ type pathCtx struct {
 	subst map[ssa.Value]string
 	depth int
 	memo  map[ssa.Value]string
+	hook  func(v ssa.Value) (string, bool) // consulted first; lets a rule name values its own way
 }
 
 func newPathCtx(p *core.Program) *pathCtx {
@@ -92,6 +93,12 @@ func (c *pathCtx) path(v ssa.Value) string {
 		return s
 	}
 	c.memo[v] = "" // cycle guard
+	if c.hook != nil {
+		if hs, ok := c.hook(v); ok {
+			c.memo[v] = hs
+			return hs
+		}
+	}
 	s := c.path0(v)
 	c.memo[v] = s
 	return s
@@ -233,7 +240,7 @@ func (c *pathCtx) path0(v ssa.Value) string {
 				n++
 			}
 		}
-		if n == 1 && !x.Heap {
+		if n == 1 {
 			if b := c.path(st.Val); b != "" {
 				return "&" + b
 			}
@@ -241,6 +248,12 @@ func (c *pathCtx) path0(v ssa.Value) string {
 		return "&new:" + x.Comment
 	case *ssa.Call:
 		return c.callPath(x)
+	case *ssa.MakeMap:
+		return "newmap"
+	case *ssa.MakeSlice:
+		return "newslice"
+	case *ssa.MakeClosure:
+		return "closure"
 	}
 	return ""
 }
@@ -259,6 +272,18 @@ func (c *pathCtx) callPath(x *ssa.Call) string {
 	}
 	callee := path.StaticCallee(x)
 	if callee == nil {
+		// call of a function-typed parameter (user callback): name(args)
+		if prm, ok := path.Unspill(x.Call.Value).(*ssa.Parameter); ok && !x.Call.IsInvoke() {
+			var as []string
+			for _, a := range x.Call.Args {
+				ap := c.path(a)
+				if ap == "" {
+					return ""
+				}
+				as = append(as, ap)
+			}
+			return prm.Name() + "(" + strings.Join(as, ",") + ")"
+		}
 		return ""
 	}
 	var args []string
